@@ -345,7 +345,23 @@ def list_wrapper(nodes: list[expr]) -> expr:
     return List(elts=nodes, ctx=Load())
 
 
+# The max number of nodes in one chain of calls.
+# A chain of calls is a deeply nested expr, the unparsers and the compiler
+# are not able to handle thousands of levels
+CHAIN_CALL_MAX_LENGTH = 50
+
+
 def chain_call_wrapper(nodes: list[expr]) -> expr:
+    # split a long chain into a chain of shorter chains
+    while len(nodes) > CHAIN_CALL_MAX_LENGTH:
+        nodes = [
+            _chain_call_wrapper(nodes[index : index + CHAIN_CALL_MAX_LENGTH])
+            for index in range(0, len(nodes), CHAIN_CALL_MAX_LENGTH)
+        ]
+    return _chain_call_wrapper(nodes)
+
+
+def _chain_call_wrapper(nodes: list[expr]) -> expr:
     runner_body = NamedExpr(
         target=Name(id="_", ctx=Store()),
         value=Lambda(
